@@ -2,6 +2,7 @@
 Counter level: the real `cycle` generator vs the model (hash of long prefixes, values at sampled indices).
 Driver level: the sequence counts in the connected frames of real-driver transcripts (transcripts.py)."""
 import core
+import fakesock
 
 
 def impl_hash(n):
@@ -58,6 +59,7 @@ def run(ctx, model):
     run_single_request_groups(ctx, model)
     run_repeated_calls(ctx, model)
     run_slc_operations(ctx, model)
+    run_two_drivers(ctx, model)
     outs = model.batch(lines)
     for (stream, k, want), out in zip(pend, outs):
         if out != want:
@@ -371,6 +373,65 @@ def run_slc_operations(ctx, model):
         if "repeated on consecutive" in log:
             ctx.violation("target-duplicate-detection-fired", case, log[log.index("sequence count"):][:120])
         pair.close()
+
+
+def run_two_drivers(ctx, model):
+    """two driver objects in one process, each with its own connection: what one of them sends must not move the other's
+    counter.  Driver B sends exactly 65534 (and 65535, 2·65535 − 1) messages between two messages of driver A; B's
+    traffic is answered locally from its first reply to keep the run short."""
+    import struct
+    import pycomm3.cip_driver as cd
+    from props import transcripts as tr
+    rng = ctx.rng
+    for between in ([65534] if ctx.tier == "quick" else [65534, 65535, 2 * 65535 - 1, 1000]):
+        scn, _, _ = tr.gen_base(rng, policy=(True, True, True), generic=(0, (), b"\x01"))
+        assert model.ask("target.new " + scn) == "ok"
+        socks = []
+        drivers = []
+        try:
+            for _ in range(2):
+                d = cd.CIPDriver("10.0.0.1/bp/0")
+                sock = fakesock.TargetSocket(model, {})
+                d._sock = sock
+                d.open()
+                socks.append(sock)
+                drivers.append(d)
+            a, b = drivers
+            a.generic_message(service=1, class_code=0x70, instance=1, connected=True, name="a")
+            b.generic_message(service=1, class_code=0x70, instance=1, connected=True, name="b")
+            template = [r for r in socks[1].replies if r and r[:2] == b"\x70\x00"][-1]
+
+            def answer(msg, template=template):
+                if len(msg) > 46 and msg[:2] == b"\x70\x00":
+                    out = bytearray(template)
+                    out[44:46] = msg[44:46]
+                    return bytes(out)
+                return None
+            socks[1].answer = answer
+            for _ in range(between - 1):
+                b.generic_message(service=1, class_code=0x70, instance=1, connected=True, name="b")
+            socks[1].answer = None
+            a.generic_message(service=1, class_code=0x70, instance=1, connected=True, name="a")
+            a.generic_message(service=1, class_code=0x70, instance=1, connected=True, name="a")
+        except BaseException as e:  # noqa
+            if isinstance(e, (KeyboardInterrupt, SystemExit)):
+                raise
+            ctx.count("two-drivers/raised/" + core.exn_class(e))
+        ctx.case("two-drivers", ("two", between))
+        frames, seqs = _wire_counts(socks[0].frames if socks else [])
+        case = {"driver_a": "message, (driver B sends %d messages on its own connection), message, message" % between}
+        for j in range(1, len(seqs)):
+            if seqs[j] == seqs[j - 1]:
+                ctx.violation("sequence-count-repeated", dict(case, frame_index=j), "driver A's connection sees count %d twice in a row" % seqs[j])
+                break
+        log = model.ask("target.log")
+        if "repeated on consecutive" in log:
+            ctx.violation("target-duplicate-detection-fired", case, log[log.index("sequence count"):][:120])
+        for d in drivers:
+            try:
+                d.close()
+            except Exception:  # noqa
+                pass
 
 
 def run_logix_histories(ctx, model):
